@@ -4,6 +4,7 @@ CONSTANTS
     DebugAsserts = TRUE
     FailKinds = {}
     Arities = {0}
+    BpChoice = "some"
     Emit = "cases"
 SPECIFICATION Spec
 INVARIANTS HappyPathOk TypeOK
